@@ -261,7 +261,13 @@ impl<'a> Mutator<'a> {
     fn refutable_for(&mut self, t: &Ty) -> Option<Pat> {
         match t {
             Ty::Bool => Some(Pat::Bool(self.rng.bool())),
-            Ty::Int(it) => Some(if self.rng.bool() { Pat::Int(5.min(it.max_val())) } else { Pat::Range(it.min_val() + 1, it.max_val(), false) }),
+            // (one value, or everything but the smallest / the largest value)
+            Ty::Int(it) => Some(match self.rng.below(4) {
+                0 => Pat::Int(5.min(it.max_val())),
+                1 => Pat::Range(it.min_val() + 1, it.max_val(), false),
+                2 => Pat::Range(it.min_val(), it.max_val() - 1, false),
+                _ => Pat::Range(it.min_val(), it.max_val() - 1, true),
+            }),
             Ty::Enum(ei) if self.defs.enums[*ei].variants.len() >= 2 => {
                 let vi = self.rng.usize_below(self.defs.enums[*ei].variants.len());
                 let n = self.defs.enums[*ei].variants[vi].1.len();
